@@ -16,7 +16,7 @@ WT = "/tmp/benwt-" + tag
 subprocess.run("git -C /repo worktree remove --force %s 2>/dev/null; git -C /repo worktree add -q --detach %s HEAD" % (WT, WT), shell=True, check=True)
 
 def run_check(c):
-    r = subprocess.run(["./check", c, "--tier", "quick"], cwd="/verif", env=dict(os.environ, VERIF_REPO=WT, VERIF_SEED="0"),
+    r = subprocess.run(["./check", c, "--tier", "quick"], cwd=os.environ.get("VERIF_SNAP", "/verif"), env=dict(os.environ, VERIF_REPO=WT, VERIF_SEED="0"),
                        capture_output=True, text=True)
     viol = [l for l in r.stdout.splitlines() if l.startswith("VIOLATION")]
     return c, r.returncode, viol, (r.stdout + r.stderr)[-600:]
